@@ -20,7 +20,9 @@
 
 
 // C++ Standard Library includes
+#include <fstream>
 #include <stdexcept>
+#include <string>
 
 
 // project includes
@@ -65,7 +67,23 @@ Counted::Counted( const filename::Definition& fname_def, size_t max_entries,
 /// @since  1.11.0, 05.09.2018
 bool Counted::openCheck()
 {
-   return fileSize() == 0;
+
+   // a new generation starts with no entries
+   mNumberOfEntries = 0;
+
+   if (fileSize() == 0)
+      return true;
+
+   // an existing log file is continued: count the entries that it contains
+   std::ifstream  existing( mCurrentLogfileName);
+   std::string    line;
+
+   while (std::getline( existing, line))
+   {
+      ++mNumberOfEntries;
+   } // end while
+
+   return mNumberOfEntries < mMaxEntries;
 } // Counted::openCheck
 
 
